@@ -213,6 +213,10 @@ static var File_Open(var self, var filename, var access) {
 static void File_Close(var self) {
   struct File* f = self;
   
+  if (f->file is NULL) {
+    throw(IOError, "Cannot close file - no file open.");
+  }
+  
   int err = fclose(f->file);
   if (err != 0) {
     throw(IOError, "Failed to close file: %i", $I(err));
